@@ -312,12 +312,17 @@ deriving DecidableEq, Repr, Inhabited
 /-- Python's floor shift of integers -/
 def pyShr (a : Int) (n : Nat) : Int := a / (2 : Int) ^ n      -- Int `/` is floor for a positive divisor
 
-/-- Python's bitwise operators on unbounded integers (two's complement with enough bits for both operands) -/
-def intBitop (f : Nat → Nat → Nat) (a b : Int) : Int :=
-  let n := max (a.natAbs.log2 + 2) (b.natAbs.log2 + 2)
-  let m : Int := (2 : Int) ^ n
-  let r : Int := Int.ofNat (f (a % m).toNat (b % m).toNat)
-  if r ≥ m / 2 then r - m else r
+/-- a width in which `a` fits as a signed number -/
+def zBits (a : Int) : Nat := a.natAbs.log2 + 2
+
+/-- Python's `&`, `|`, `^` on unbounded integers: two's complement in a width both operands fit in -/
+def zBitop (f : (n : Nat) → BitVec n → BitVec n → BitVec n) (a b : Int) : Int :=
+  let n := max (zBits a) (zBits b)
+  (f n (BitVec.ofInt n a) (BitVec.ofInt n b)).toInt
+
+def zOr (a b : Int) : Int := zBitop (fun _ x y => x ||| y) a b
+def zAnd (a b : Int) : Int := zBitop (fun _ x y => x &&& y) a b
+def zXor (a b : Int) : Int := zBitop (fun _ x y => x ^^^ y) a b
 
 /-- `int (op) int`, evaluated by Python itself -/
 def intOp (op : SOp) (a b : Int) : Except AsmError PyVal :=
@@ -327,9 +332,9 @@ def intOp (op : SOp) (a b : Int) : Except AsmError PyVal :=
   | .mul => pure (.int (a * b))
   | .floordiv => if b = 0 then .error (.other "ZeroDivisionError") else pure (.int (Int.fdiv a b))
   | .mod => if b = 0 then .error (.other "ZeroDivisionError") else pure (.int (Int.fmod a b))
-  | .and => pure (.int (intBitop (· &&& ·) a b))
-  | .or => pure (.int (intBitop (· ||| ·) a b))
-  | .xor => pure (.int (intBitop (· ^^^ ·) a b))
+  | .and => pure (.int (zAnd a b))
+  | .or => pure (.int (zOr a b))
+  | .xor => pure (.int (zXor a b))
   | .lsh => if b < 0 then .error (.other "ValueError") else pure (.int (a * (2 : Int) ^ b.toNat))
   | .rsh => if b < 0 then .error (.other "ValueError") else pure (.int (pyShr a b.toNat))
 
